@@ -153,6 +153,19 @@ func dischargeOne(o *Obligation, opt SolveOpts, wid int) {
 		if cases := o.splitCases(); len(cases) > 0 {
 			allUnsat := true
 			secs := 0.0
+			// soundness of the split: the cases must cover the path condition
+			{
+				saved := o.Goal
+				o.Goal = or(cases...)
+				q := o.QueryWith(false, false, "")
+				o.Goal = saved
+				r, _, s1 := runSolverCtx(context.Background(), portfolio[0], q, base+"-splitcover.smt2", 3*time.Second)
+				secs += s1
+				if r != "unsat" {
+					allUnsat = false
+					cases = nil
+				}
+			}
 			for ci, cs := range cases {
 				q := o.QueryWith(false, false, cs)
 				r, _, s1 := runSolverCtx(context.Background(), portfolio[0], q, fmt.Sprintf("%s-split%d.smt2", base, ci), 3*time.Second)
